@@ -199,6 +199,7 @@ type Session struct {
 	gateCh                                        chan struct{}
 	gateDead                                      bool
 	GatedGrants                                   int
+	NegWindowGrants                               int
 	hookN                                         int64
 	setupDone                                     bool
 	Foreign                                       []Finding
